@@ -36,6 +36,7 @@ import (
 	"sort"
 	"strings"
 	"sync"
+	"sync/atomic"
 	"time"
 
 	"github.com/influxdata/influxdb/v2"
@@ -78,10 +79,24 @@ type tcase struct {
 	IdleMs int `json:"idleMs"`
 }
 
+// Waiting for the goroutine of a queue: a request is normally outstanding well within a millisecond of the call that
+// causes it, and a queue drains in milliseconds once the remote accepts.  The bounds are four orders of magnitude above
+// that.  Once three cases of this process have run into a bound (the code under test does not forward at all) the later
+// cases wait only briefly, so that a broken tree is reported in minutes and not in hours.
 const (
-	heldTimeout  = 30 * time.Second // a request is normally outstanding within a millisecond
-	drainTimeout = 60 * time.Second
+	heldTimeout  = 10 * time.Second
+	drainTimeout = 30 * time.Second
+	shortTimeout = 300 * time.Millisecond
 )
+
+var stuck atomic.Int32
+
+func bound(d time.Duration) time.Duration {
+	if stuck.Load() >= 3 {
+		return shortTimeout
+	}
+	return d
+}
 
 // ---------------------------------------------------------------- the gate (config store) and the remote
 
@@ -593,11 +608,13 @@ func (w *world) checkHeld(i int, s *step, pats []string) *rt.Result {
 	for _, x := range w.c.Ids {
 		id := w.cid[x]
 		if has(s.Exp.Held, x) {
-			dl := time.Now().Add(heldTimeout)
+			to := bound(heldTimeout)
+			dl := time.Now().Add(to)
 			for w.store.waitingAt(id) == 0 {
 				if time.Now().After(dl) {
+					stuck.Add(1)
 					r := rt.Fail(i, fmt.Sprintf("queue of %s holds batches %v but no request to the remote is outstanding %v after %s: nothing forwards them",
-						x, s.Exp.Pend[x], heldTimeout, s.A), 0, 1, pats...)
+						x, s.Exp.Pend[x], to, s.A), 0, 1, pats...)
 					return &r
 				}
 				time.Sleep(200 * time.Microsecond)
@@ -745,7 +762,8 @@ func run(c *tcase, env *rt.Env) rt.Result {
 			tok := w.token(x)
 			n0 := len(w.rm.received(tok))
 			w.store.setOpen(id, true)
-			dl := time.Now().Add(drainTimeout)
+			to := bound(drainTimeout)
+			dl := time.Now().Add(to)
 			for {
 				rem, err := w.qm.RemainingQueueSizes([]platform.ID{id})
 				if err != nil {
@@ -757,7 +775,8 @@ func run(c *tcase, env *rt.Env) rt.Result {
 				}
 				if time.Now().After(dl) {
 					w.store.setOpen(id, false)
-					return rt.Fail(i, fmt.Sprintf("the remote accepts every write but the queue of %s did not drain within %v (remaining %d bytes)", x, drainTimeout, rem[id]), rem[id], 0, pats...)
+					stuck.Add(1)
+					return rt.Fail(i, fmt.Sprintf("the remote accepts every write but the queue of %s did not drain within %v (remaining %d bytes)", x, to, rem[id]), rem[id], 0, pats...)
 				}
 				time.Sleep(200 * time.Microsecond)
 			}
